@@ -2,7 +2,7 @@
    Model: coq/model/Mmr.v; specification: coq/spec/MmrSpec.v (path ls i = sibling digests from leaf i up to,
    excluding, its peak; mp_verify_spec = what verification has to decide). *)
 From Coq Require Import ZArith List Bool.
-From TF Require Import Word MmrIdxLocal Mmr MmrSpec MmrTerm MmrProofs MmrSmall MmrUpdates MmrBatch.
+From TF Require Import Word MmrIdxLocal Mmr MmrSpec MmrTerm MmrProofs MmrSmall MmrUpdates MmrBatch MmrHistory.
 Import ListNotations.
 Open Scope Z_scope.
 
@@ -108,6 +108,32 @@ Theorem C05_batch_mutate_leaf_and_update_mps : forall (D : Type) (H : D -> D -> 
       md_spec D H dflt ls (apply_muts D ls ms) 0 idxs md.
 Proof. exact bmlu_spec. Qed.
 Print Assumptions C05_batch_mutate_leaf_and_update_mps.
+
+(* history_inv, FULL statement: the invariant `tinv` (accumulator commits to the list; every tracked proof is
+   the authentication path of its leaf) is preserved by every valid history of tracked operations
+   (tstate / top / tstep / trun / tinv in proofs/MmrHistory.v: appends through batch_update_from_append,
+   mutations through batch_update_from_leaf_mutation + mutate_leaf, batches through
+   batch_mutate_leaf_and_update_mps) *)
+Definition C05_history_inv_full : Prop :=
+  forall (D : Type) (H : D -> D -> D) (deq : D -> D -> bool) (dflt : D),
+    (forall x y, deq x y = true <-> x = y) ->
+    forall (ops : list (top D)) (st : tstate D) (ls : list D),
+      tinv D H dflt st ls -> zlength ls < 2 ^ 63 -> mops_valid D H dflt ls (map (terase D) ops) ->
+      exists st', trun D H deq st ops = Some st' /\
+                  tinv D H dflt st' (run D ls (map (erase D) (map (terase D) ops))).
+
+(* PARTIAL: history_inv is proved MODULO one statement, `append_exact` (batch_update_from_append yields the
+   paths in the list with one more leaf - the still open general form of C05_update_from_append_small_partial);
+   the mutation and batch-mutation steps are unconditional *)
+Theorem C05_history_inv_modulo_append_partial : forall (D : Type) (H : D -> D -> D) (deq : D -> D -> bool) (dflt : D),
+  (forall x y, deq x y = true <-> x = y) ->
+  append_exact D H dflt ->
+  forall (ops : list (top D)) (st : tstate D) (ls : list D),
+    tinv D H dflt st ls -> zlength ls < 2 ^ 63 -> mops_valid D H dflt ls (map (terase D) ops) ->
+    exists st', trun D H deq st ops = Some st' /\
+                tinv D H dflt st' (run D ls (map (erase D) (map (terase D) ops))).
+Proof. exact history_inv. Qed.
+Print Assumptions C05_history_inv_modulo_append_partial.
 
 (* PARTIAL stand-ins (bounded exhaustive, free hash with pairwise distinct leafs, by vm_compute; the checked
    predicates are in proofs/MmrSmall.v):
